@@ -136,6 +136,8 @@ def judge_value(ctx, case):
             routes['pack'] = ('create', lambda: pack(f'{name}:{n}', pv))
             routes['pack-eq'] = ('create', lambda: pack(f'{name}:{n}={sv}'))
         routes['pack-kwlen'] = ('create', lambda: pack(f'{name}:k', pv, k=n))
+        if n >= 0:
+            routes['pack-kwval'] = ('create', lambda: pack(f'{name}:{n}=v', v=pv))       # the same format string meets many values, good and bad
         routes['Dtype.build'] = ('create', lambda: Dtype(name, n).build(pv))
         if ok and n > 0:
             # "every in-range combination succeeds": also right after the same value was assigned to a mutable object that was then changed
